@@ -636,7 +636,7 @@ func checkC11(c *Ctx) {
 				if fresh.E == "escaped" || got.E == "escaped" {
 					continue
 				}
-				if fresh.Line() != got.Line() {
+				if fresh.Line() != got.Line() || (fresh.E == "syn" && got.E == "syn" && fresh.ErrText != got.ErrText) {
 					c.violate(Violation{Kind: "history", What: "Process on a reused evaluator differs from a fresh evaluator", Rule: sl.text, RuleHex: hx(sl.text), Object: o.Pretty(), ObjProto: o.String(),
 						Ops: strings.Join(sl.hist, " ; "), Demand: "what a freshly created evaluator returns: " + fresh.Line(), Go: got.Line() + " " + got.ErrText})
 					k = steps
